@@ -186,7 +186,7 @@ func (v *VecDense) checkOverlap(a blas64.Vector) bool {
 	}
 	inc := min(mat.Inc, a.Inc)
 
-	if inc == 1 || off&inc == 0 {
+	if inc == 1 || off%inc == 0 {
 		panic(regionOverlap)
 	}
 	return false
